@@ -172,6 +172,8 @@ def run_case(ctx, case):
         return path_family(ctx, only=case)
     if case.get("kind") == "fallback":
         return fallback_family(ctx, only=case)
+    if case.get("kind") == "literal":
+        return literal_family(ctx, only=case)
     rel, shape = case["rel"], case["shape"]
     ctx.cls("rel:" + rel)
     kinds = G.kinds_in(shape)
@@ -579,6 +581,68 @@ def fallback_family(ctx, only=None):
                     return
 
 
+import enum as _enum  # noqa: E402
+
+
+class StrMode(str, _enum.Enum):
+    fast = "f"
+    slow = "s"
+
+
+class IntMode(_enum.IntEnum):
+    one = 1
+    two = 2
+
+
+class PlainMode(_enum.Enum):
+    up = "u"
+    down = "d"
+
+
+def literal_family(ctx, only=None):
+    """Literal[...] of Enum members (plain, str-mixin, IntEnum): the member's name - the spelling the Enum type itself takes - conforms,
+    any other name does not.  Enumerated: enum kind x {bare, optional, list item, union with int} x {object, argv} x names."""
+    from typing import List, Literal, Optional, Union
+
+    from jsonargparse import ArgumentError, ArgumentParser
+
+    table = {"str-mixin": (Literal[StrMode.fast, StrMode.slow], {"fast": StrMode.fast, "slow": StrMode.slow}),
+             "int-enum": (Literal[IntMode.one], {"one": IntMode.one}), "plain": (Literal[PlainMode.up, "txt"], {"up": PlainMode.up, "txt": "txt"}),
+             "mixed": (Literal[StrMode.fast, 3, "x"], {"fast": StrMode.fast, "x": "x"})}
+    hints = {"bare": (lambda t: t, lambda v: v, lambda r: r), "optional": (lambda t: Optional[t], lambda v: v, lambda r: r),
+             "list-item": (lambda t: List[t], lambda v: [v], lambda r: r[0]), "union-with-int": (lambda t: Union[int, t], lambda v: v, lambda r: r)}
+    for tname, (T, good) in table.items():
+        for hname, (mk, wrap, unwrap) in hints.items():
+            for name in list(good) + ["zq7", "FAST"]:
+                for channel in ("object", "argv"):
+                    case = {"kind": "literal", "enum": tname, "hint": hname, "name": name, "channel": channel}
+                    if only is not None and case != only:
+                        continue
+                    ctx.begin(case)
+                    p = ArgumentParser(exit_on_error=False)
+                    p.add_argument("--p", type=mk(T))
+                    try:
+                        if channel == "object":
+                            r = p.parse_object({"p": wrap(name)}).p
+                        else:
+                            r = p.parse_args(["--p=" + (name if hname != "list-item" else json.dumps([name]))]).p
+                        got, outcome = unwrap(r), "ok"
+                    except ArgumentError as ex:
+                        outcome, got = "rejected", str(ex)[:300]
+                    except Exception as ex:  # noqa
+                        outcome, got = "raises", fmt_exc(ex)
+                    ctx.cls(f"literal-family:{outcome}")
+                    ctx.mark_nontrivial_enumerated()
+                    if name in good and outcome != "ok":
+                        ctx.finding(f"C02/literal/member-name-{outcome}/{tname}/{hname}/{channel}", {"name": name, "error": got})
+                    elif name in good and (got != good[name] or type(got) is not type(good[name])):
+                        ctx.finding(f"C02/literal/result-is-not-the-member/{tname}/{hname}/{channel}", {"name": name, "got": repr(got)})
+                    elif name not in good and outcome == "ok":
+                        ctx.finding(f"C02/literal/foreign-name-accepted/{tname}/{hname}/{channel}", {"name": name, "got": repr(got)})
+                    if not ctx.end(raise_on_fail=False):
+                        return
+
+
 def plan(tier):
     if tier == "quick":
         return [{"kind": "paths"}] + [{"n": 1200, "depth": 3} for _ in range(16)]
@@ -588,7 +652,8 @@ def plan(tier):
 def run_shard(spec, ctx):
     if spec.get("kind") == "paths":
         path_family(ctx)
-        return fallback_family(ctx)
+        fallback_family(ctx)
+        return literal_family(ctx)
     if spec.get("kind") == "atheris":
         from ..core import run_atheris
 
